@@ -920,6 +920,9 @@ func (c *Client) Start() (addr net.Addr, err error) {
 		// Checking if the length is > 50 rules out catching the unused "extra"
 		// data returned from some older implementations.
 		if len(parts) >= 6 && len(parts[5]) > 50 {
+			if c.config.TLSConfig == nil {
+				return nil, errors.New("plugin returned a TLS certificate but the client has no TLS configuration")
+			}
 			err := c.loadServerCert(parts[5])
 			if err != nil {
 				return nil, fmt.Errorf("error parsing server cert: %s", err)
